@@ -42,6 +42,17 @@ where
 
         if backdated {
             old_memo.header.backdate(index, revisions);
+        } else if old_memo.header.was_cycle_participant()
+            && old_memo.header.revisions.changed_at > revisions.changed_at
+        {
+            // The `changed_at` of a memo that took part in a cycle is an upper bound, not exact
+            // (cycle participants are never backdated), and its readers are stamped with it.
+            // When the query is later re-executed on its own (outside the cycle, or before its
+            // lazily finalized memo could be validated) it reads the cycle's finalized, backdated
+            // results and would get an *earlier* `changed_at` for the same value; every reader
+            // that then re-executes to an equal value would see its stamp move backwards. Keep
+            // the stamp monotone; a later `changed_at` is always safe.
+            revisions.changed_at = old_memo.header.revisions.changed_at;
         }
     }
 }
